@@ -238,3 +238,70 @@ Proof.
   destruct (slow_tri_clockwise _ _ _ _ _ _ _ Eb) as [[E2|E2] _];
   inversion E1; inversion E2; subst; try reflexivity; exfalso; lia.
 Qed.
+
+(* ---- completeness up to rotation: every clockwise triple of distinct indices whose circumcircle
+   is empty occurs in the slow output in its least-index-first rotation (the form
+   TriangleI.Canonical produces), so a triangulation made of such triples is a subset of the
+   slow output as a canonical set. *)
+Lemma orient_rot a b c : orient b c a = orient a b c.
+Proof. destruct a, b, c. unfold orient. cbn. ring. Qed.
+Lemma orient_swap a b c : orient a c b = - orient a b c.
+Proof. destruct a, b, c. unfold orient. cbn. ring. Qed.
+
+Definition empty_about (vs : list RV2) (a b c : nat) : Prop :=
+  forall cc, equidistant cc (P vs a) (P vs b) (P vs c) ->
+  forall i, (i < length vs)%nat -> i <> a -> i <> b -> i <> c -> ~ d2 (P vs i) cc < d2 (P vs a) cc.
+
+Lemma d2_sym a b : d2 a b = d2 b a.
+Proof. unfold d2. ring. Qed.
+
+Lemma empty_about_rot vs a b c : empty_about vs a b c -> empty_about vs b c a.
+Proof.
+  unfold empty_about, equidistant. intros H cc [E1 E2] i Hi n1 n2 n3.
+  assert (E : equidistant cc (P vs a) (P vs b) (P vs c)) by (unfold equidistant; split; lra).
+  specialize (H cc E i Hi n3 n1 n2).
+  pose proof (d2_sym cc (P vs a)). pose proof (d2_sym cc (P vs b)). pose proof (d2_sym cc (P vs c)). lra.
+Qed.
+Lemma empty_about_swap vs a b c : empty_about vs a b c -> empty_about vs a c b.
+Proof.
+  unfold empty_about, equidistant. intros H cc [E1 E2] i Hi n1 n2 n3.
+  apply (H cc (conj E2 E1) i Hi n1 n3 n2).
+Qed.
+
+Lemma slow_has_sorted vs ts i0 i1 i2 :
+  @delaunay2d_slow ROps vs = Some ts -> general_position vs ->
+  (i0 < i1 < i2 /\ i2 < length vs)%nat -> empty_about vs i0 i1 i2 ->
+  (orient (P vs i0) (P vs i1) (P vs i2) < 0 -> In (i0, i1, i2) ts) /\
+  (orient (P vs i0) (P vs i2) (P vs i1) < 0 -> In (i0, i2, i1) ts).
+Proof.
+  intros Hs G Hc He. split; intros Ho; apply (slow_spec vs ts Hs G); exists i0, i1, i2.
+  - split; [exact Hc|]. split; [left; reflexivity|]. split; [exact Ho|].
+    intros cc Hcc. exact (He cc Hcc).
+  - split; [exact Hc|]. split; [right; reflexivity|]. split; [exact Ho|].
+    intros cc Hcc. exact (He cc Hcc).
+Qed.
+
+Theorem slow_complete vs ts a b c :
+  @delaunay2d_slow ROps vs = Some ts -> general_position vs ->
+  (a < length vs)%nat -> (b < length vs)%nat -> (c < length vs)%nat -> a <> b -> b <> c -> a <> c ->
+  orient (P vs a) (P vs b) (P vs c) < 0 -> empty_about vs a b c ->
+  In (a, b, c) ts \/ In (b, c, a) ts \/ In (c, a, b) ts.
+Proof.
+  intros Hs G la lb lc nab nbc nac Ho He.
+  pose proof (empty_about_rot _ _ _ _ He) as He1.
+  pose proof (empty_about_rot _ _ _ _ He1) as He2.
+  pose proof (orient_rot (P vs a) (P vs b) (P vs c)) as R1.
+  pose proof (orient_rot (P vs b) (P vs c) (P vs a)) as R2.
+  destruct (lt_dec a b) as [ab|ab]; destruct (lt_dec b c) as [bc|bc]; destruct (lt_dec a c) as [ac|ac]; try lia.
+  - (* a < b < c *) left. apply (slow_has_sorted vs ts a b c Hs G); [lia | exact He | exact Ho].
+  - (* a < c < b : least a, stored (a, b, c) as (i0, i2, i1) with i1 = c, i2 = b *)
+    left. apply (slow_has_sorted vs ts a c b Hs G); [lia | apply empty_about_swap; exact He | exact Ho].
+  - (* c < a < b : rotation (c, a, b) sorted *)
+    right; right. apply (slow_has_sorted vs ts c a b Hs G); [lia | exact He2 | lra].
+  - (* b < a, b < c, a < c : b < a < c, rotation (b, c, a) = (i0, i2, i1) *)
+    right; left. apply (slow_has_sorted vs ts b a c Hs G); [lia | apply empty_about_swap; exact He1 | lra].
+  - (* b < c < a : rotation (b, c, a) sorted *)
+    right; left. apply (slow_has_sorted vs ts b c a Hs G); [lia | exact He1 | lra].
+  - (* c < b < a : rotation (c, a, b) = (i0, i2, i1) with i1 = b, i2 = a *)
+    right; right. apply (slow_has_sorted vs ts c b a Hs G); [lia | apply empty_about_swap; exact He2 | lra].
+Qed.
